@@ -196,6 +196,7 @@ SPECIAL_STRINGS = [
     [0x130], [0x49, 0x307], [0x131], [0xDF], [0x1E9E], [0xFB00], [0xFB01], [0x149],  # case-expanding
     [0x1F88], [0x1C5], [0x10400], [0x1F600], [0xE9], [0x65, 0x301], [0x200B], [0xFEFF],
     [0x61, 0x0, 0x62], [0x41, 0x42, 0x43, 0x44], [0x61] * 5, [0x20, 0x61, 0x20, 0x62, 0x20],
+    [0x61, 0xA], [0x61, 0xA, 0x62], [0x61, 0x2E], [0x62, 0x61, 0x2D],                  # `.` in a regex matches everything but a line feed
 ]
 
 
